@@ -4,4 +4,4 @@ From Coq Require Extraction ExtrOcamlBasic ExtrOcamlZBigInt.
 From Verif Require Import Lib.Bytes Gen.GenService Gen.GenNetworks Model.CacheModel Model.Service.
 Extraction Language OCaml.
 Extraction "../ocaml/c20_model.ml" bz zb lib_order lib_provider_execute lib_step empty_cache cache_store_address
-  nw_bitcoin nw_testnet.
+  lib_xstep empty_xcache nw_bitcoin nw_testnet.
